@@ -43,8 +43,16 @@ type MacroDef struct {
 
 // Input is one REPL input: either a macro definition or statements that may call macros.
 type Input struct {
-	Def   *MacroDef   `json:"def,omitempty"`
-	Stmts []*gen.Node `json:"stmts,omitempty"`
+	Def      *MacroDef   `json:"def,omitempty"`
+	MoreDefs []*MacroDef `json:"more_defs,omitempty"` // further definitions directly after Def, in the same input
+	Stmts    []*gen.Node `json:"stmts,omitempty"`     // with Def: statements of the same input, after the definitions
+}
+
+func (in Input) defs() []*MacroDef {
+	if in.Def == nil {
+		return nil
+	}
+	return append([]*MacroDef{in.Def}, in.MoreDefs...)
 }
 
 type Case struct {
@@ -142,16 +150,19 @@ func check(c Case) error {
 	type expanded struct{ src, dump string }
 	var seen []expanded
 	for _, in := range c.Inputs {
-		if in.Def != nil {
-			src := defSource(in.Def)
-			history = append(history, src)
-			if r := p.Run(src); r.Failed() {
-				return fmt.Errorf("macro definition rejected: %q: %v", src, r.Errs)
+		defSrc := ""
+		for _, d := range in.defs() {
+			defSrc += defSource(d) + "\n"
+			macros[d.Name] = d
+		}
+		if in.Def != nil && len(in.Stmts) == 0 {
+			history = append(history, defSrc)
+			if r := p.Run(defSrc); r.Failed() {
+				return fmt.Errorf("macro definition rejected: %q: %v", defSrc, r.Errs)
 			}
-			macros[in.Def.Name] = in.Def
 			continue
 		}
-		src := gen.Print(in.Stmts, gen.PrintOptions{})
+		src := defSrc + gen.Print(in.Stmts, gen.PrintOptions{})
 		hsrc := gen.Print(expandList(in.Stmts, macros), gen.PrintOptions{})
 		history = append(history, src)
 		// (1) the expanded tree
@@ -304,6 +315,7 @@ func TestSessions(t *testing.T) {
 		var macros []*MacroDef
 		nm := rapid.IntRange(1, 3).Draw(rt, "nmacros")
 		multiUse, nested, argOp, callSites := false, false, false, map[string]int{}
+		oddNames, adjacent := false, false
 		useSite := func() Input {
 			d := rapid.SampledFrom(macros).Draw(rt, "macro")
 			callSites[d.Name]++
@@ -335,9 +347,23 @@ func TestSessions(t *testing.T) {
 			}
 			return Input{Stmts: stmts}
 		}
+		// parameter names: plain ones, constant-style ones, and names that are also a macro, a global or a function
+		namePool := []string{"pa", "pb", "pc", "pd", "pa", "pb", "pc", "pd", "X", "PB", "N_1", "mac0", "mac1", "mac2", "g1", "pr", "x"}
+		var pending *Input // a definition input that the next definition joins (adjacent definitions in one input)
 		for i := 0; i < nm; i++ {
 			k := rapid.IntRange(0, 4).Draw(rt, "k")
-			params := []string{"pa", "pb", "pc", "pd"}[:k]
+			var params []string
+			for len(params) < k {
+				n := rapid.SampledFrom(namePool).Draw(rt, "pname")
+				dup := false
+				for _, q := range params {
+					dup = dup || q == n
+				}
+				if !dup {
+					params = append(params, n)
+					oddNames = oddNames || !strings.HasPrefix(n, "p") || n == "pr"
+				}
+			}
 			g := &tgen{t: rt, params: params, uses: map[string]int{}}
 			d := &MacroDef{Name: fmt.Sprintf("mac%d", i), Params: params, Template: g.template(rapid.IntRange(1, 3).Draw(rt, "tdepth"))}
 			for _, n := range g.uses {
@@ -345,8 +371,26 @@ func TestSessions(t *testing.T) {
 					multiUse = true
 				}
 			}
-			c.Inputs = append(c.Inputs, Input{Def: d})
 			macros = append(macros, d)
+			if pending != nil {
+				pending.MoreDefs = append(pending.MoreDefs, d)
+				adjacent = true
+			} else {
+				c.Inputs = append(c.Inputs, Input{Def: d})
+			}
+			pending = nil
+			switch rapid.IntRange(0, 3).Draw(rt, "defshape") {
+			case 0:
+				if i+1 < nm { // the next definition follows in the same input
+					pending = &c.Inputs[len(c.Inputs)-1]
+					continue
+				}
+			case 1: // uses in the same input as the definition(s)
+				in := &c.Inputs[len(c.Inputs)-1]
+				if in.Def != nil {
+					in.Stmts = useSite().Stmts
+				}
+			}
 			for u := rapid.IntRange(1, 3).Draw(rt, "uses"); u > 0; u-- {
 				c.Inputs = append(c.Inputs, useSite())
 			}
@@ -370,11 +414,16 @@ func TestSessions(t *testing.T) {
 		}
 		var sb strings.Builder
 		for _, in := range c.Inputs {
-			if in.Def != nil {
-				sb.WriteString(defSource(in.Def) + "\n")
-			} else {
-				sb.WriteString(gen.Print(in.Stmts, gen.PrintOptions{}))
+			for _, d := range in.defs() {
+				sb.WriteString(defSource(d) + "\n")
 			}
+			sb.WriteString(gen.Print(in.Stmts, gen.PrintOptions{}))
+		}
+		if oddNames {
+			pbt.Label("session:parameter-named-like-constant/macro/global")
+		}
+		if adjacent {
+			pbt.Label("session:adjacent-definitions-in-one-input")
 		}
 		pbt.Case(nt, sb.String(), lbl)
 		pbt.Sample("session", strings.Split(strings.TrimSpace(sb.String()), "\n"))
